@@ -883,6 +883,25 @@ func checkC15(tier string, seed int64) int {
 	o1, sigs, samples := runPlCases(nil, rep, seed, nVal, tier)
 	obs["encoder_values_checked"] = o1["grammar_checks"]
 
+	// (0) termination on degenerate documents: every decoder entry point (the generic one and the two
+	// concrete ones, which callers that know the kind use directly) on documents without any content,
+	// without a header, or cut inside the header - each under a watchdog, because a decoder that spins
+	// cannot be interrupted, only reported
+	for i, doc := range degenerateDocs() {
+		doc := doc
+		c := plCase{Property: "C15", Text: doc}
+		rep.Current(0, c)
+		var probs []string
+		if !within(20*time.Second, func() { _, probs = decodeAndCheck([]byte(doc)) }) {
+			rep.Report("C15/termination/degenerate-document", fmt.Sprintf("degenerate document %d (%q): a decoder did not return within 20 s", i, doc), c)
+			continue
+		}
+		obs["degenerate_documents_decoded_in_time"]++
+		for _, pr := range probs {
+			rep.Report("C15/post/degenerate-document", fmt.Sprintf("degenerate document %d (%q): %s", i, doc, pr), c)
+		}
+	}
+
 	// (2) grammar-based mutation of encoded playlists: decoder total + post-conditions
 	nMut := 60000
 	if tier == "thorough" {
@@ -903,7 +922,12 @@ func checkC15(tier string, seed int64) int {
 				text := mutateText(string(b), rng)
 				c.Property, c.Text = "C15", text
 				rep.Current(slot, c)
-				dec, probs, regr := decodeAndCheck2([]byte(text))
+				var dec bool
+				var probs, regr []string
+				if !within(60*time.Second, func() { dec, probs, regr = decodeAndCheck2([]byte(text)) }) {
+					rep.Report("C15/termination/mutant", fmt.Sprintf("mutant %d: a decoder did not return within 60 s", idx), c)
+					continue
+				}
 				mu.Lock()
 				obs["mutants_tried"]++
 				if dec {
@@ -1180,4 +1204,16 @@ func init() {
 	}
 	replayers["C14"] = rp
 	replayers["C15"] = rp
+}
+
+// degenerateDocs lists documents without content, without a header or cut inside the first lines.
+func degenerateDocs() []string {
+	docs := []string{"", "\n", "\r\n", "\r", "\n\n\n", "\r\n\r\n", " ", " \n", "\t\n", "\x00", "\xef\xbb\xbf", "\xef\xbb\xbf\n",
+		"#", "#\n", "#EXT", "#EXTM3U", "#EXTM3U\n", "#EXTM3U\r\n", "#EXTM3U\n\n", "\n#EXTM3U\n", "\n\n#EXTM3U\n#EXT-X-TARGETDURATION:2\n#EXTINF:1,\na\n",
+		"#EXTM3U\n#EXTINF:1,", "#EXTM3U\n#EXTINF:1,\n", "#EXTM3U\n#EXT-X-STREAM-INF:BANDWIDTH=1", "#EXTM3U\n#EXT-X-STREAM-INF:BANDWIDTH=1\n",
+		"#EXTINF:1,\na\n", "#EXT-X-STREAM-INF:BANDWIDTH=1\na\n", "\n#EXTINF:1,\na\n", "\r\n#EXT-X-STREAM-INF:BANDWIDTH=1\r\na\r\n"}
+	for n := 1; n <= 4096; n *= 8 {
+		docs = append(docs, strings.Repeat("\n", n), strings.Repeat("\r\n", n), strings.Repeat(" ", n), strings.Repeat("\n", n)+"#EXTM3U\n#EXT-X-TARGETDURATION:2\n#EXTINF:1,\na\n")
+	}
+	return docs
 }
